@@ -2,6 +2,8 @@
 
 Oracle: scipy.interpolate.CubicSpline(bc_type) / numpy.interp on the same (sorted) grid; the interpolation matrix
 extracted from unit vectors gives d/dy; CubicSpline derivative gives d/dxq; extrapolation modes re-derived here.
+Task "history": call histories on ONE Interp1D object (different y tensors, the same tensor updated in place, with/without grad,
+alternating query sets); every call is checked against the reference for the data of that call and against a fresh object.
 """
 from __future__ import annotations
 
@@ -16,18 +18,30 @@ from pbt.harness import Task, ok, violation, discard, xt_call
 PID = "C14"
 RULE = ("method in {linear, cspline} x bc in {not-a-knot(>=4 knots), natural, clamped, periodic} x extrap in {default, nan, constant (float/int/0-d/1-element tensor, incl. exactly 0), "
         "callable, bound, mirror, periodic} x grid (3..40 knots, spacing ratio <=100, optionally shuffled) x queries (at knots, at the "
-        "range ends, inside, outside; 1..3n of them, shuffled) x y batch shape x y at init/call x reuse of one object for several calls. "
-        "Non-trivial = at least one query strictly between knots; distinct by canonical case.")
+        "range ends, inside, outside; 1..3n of them, shuffled) x y batch shape x y at init/call x reuse of one object for several calls; "
+        "the caller's x, y, xq must be bitwise unchanged by a call. "
+        "history: ONE Interp1D object (x sorted / sorted with assume_sorted=True / shuffled; y at init or at call) and 2..4 (thorough 7) calls, each "
+        "with y in {new tensor (any batch shape, contiguous or a strided view of a larger tensor), the same tensor again, the same tensor updated "
+        "in place by copy_/add_/mul_/element assignment} x requires_grad on/off x torch.no_grad() on/off, and queries in {new, same tensor, same "
+        "tensor updated in place} x few/many (both formulas) x inside/outside x requires_grad; every call is compared with the SciPy/NumPy "
+        "reference for the values y holds at that call, with a freshly constructed Interp1D, its d/dy and d/dxq with the reference, and x, y "
+        "(and the tensor y is a view of), xq must be bitwise unchanged. "
+        "Non-trivial = at least one query strictly between knots (history: and at least two calls on the object); distinct by canonical case.")
 ASSUMPTIONS = [
     "float64; x does not require grad (the statement claims differentiability in y and xq only)",
     "not-a-knot needs >= 4 knots (with 3 the two end conditions coincide and the spline is not unique)",
     "tolerance 1e-10 * ratio^2 * max|y| (spline system conditioning grows with the spacing ratio)",
     "batched y with an unbatched 1-D x (the docs restrict batched x/xq to the no-extrapolation case)",
+    "history: a y passed at call time to an object constructed with y is ignored (documented in Interp1D.__call__); a y given at "
+    "construction is never modified by the caller afterwards (the docs do not say whether the object snapshots it)",
+    "history: where y[0]==y[-1] is required (periodic bc / periodic extrapolation) d/dy is only compared along directions that keep it "
+    "(interior unit vectors and e_0+e_{n-1}); re-used object vs fresh object agree within 1e-13*ratio^2*max|y| (same arithmetic)",
 ]
 LEVEL_TEXT = ("Differential exploration against SciPy's spline/NumPy's interp over generated grids, boundary conditions, query sets "
               "and call histories, including both internal evaluation formulas and every extrapolation mode.")
 LEVEL_NOTE = "trusts scipy.interpolate.CubicSpline and numpy.interp as references"
-TECHNIQUE = "Hypothesis property-based testing: differential oracle (SciPy/NumPy) + metamorphic relations (permutation, few-vs-many queries)"
+TECHNIQUE = ("Hypothesis property-based testing: differential oracle (SciPy/NumPy) + metamorphic relations (permutation, few-vs-many queries) "
+             "+ generated call histories on one object (model = the reference applied to the data of each call)")
 
 DT = torch.float64
 
@@ -64,6 +78,12 @@ def map_outside(xq, xmin, xmax, mode):
     elif mode == "bound":
         p = np.clip(p, 0.0, 1.0)
     return xmin + p * L
+
+
+def same_bits(t, before):
+    """bitwise equality of two float64 tensors of the same shape (no NaN / signed-zero leniency)"""
+    return tuple(t.shape) == tuple(before.shape) and \
+        torch.equal(t.detach().contiguous().view(torch.int64), before.detach().contiguous().view(torch.int64))
 
 
 def run_case(case):
@@ -136,7 +156,11 @@ def run_case(case):
             return Interp1D(x_t, y_tensor, **kw)(xq_tensor)
         return Interp1D(x_t, **kw)(xq_tensor, y_tensor)
 
+    snap = [(nm, t, t.clone()) for nm, t in (("x", x_t), ("y", y_t), ("xq", xq_t))]
     got = xt_call(evaluate, case["yat"], xq_t, _where="interp")
+    for nm, t, before in snap:
+        if not same_bits(t, before):
+            return violation("input_modified", "the caller's %s tensor was modified by the call (extrap=%s)" % (nm, extrap), labels)
     if tuple(got.shape) != (*batch, nq):
         return violation("shape", "result shape %s, expected %s" % (tuple(got.shape), (*batch, nq)), labels)
     if extrap == "callable":
@@ -284,5 +308,275 @@ def case_st(draw, tier="quick"):
             "seed": draw(st.integers(0, 2 ** 31 - 1))}
 
 
+# ------------------------------------------------------------------ histories on ONE Interp1D object
+
+def draw_queries(kinds, nq, u, xs):
+    n, xmin, xmax = len(xs), xs[0], xs[-1]
+    L = xmax - xmin
+    xq = np.empty(nq)
+    for i in range(nq):
+        k = kinds[i % len(kinds)]
+        if k == "knot":
+            xq[i] = xs[int(u[i] * n) % n]
+        elif k == "lo":
+            xq[i] = xmin
+        elif k == "hi":
+            xq[i] = xmax
+        elif k == "in":
+            xq[i] = xmin + u[i] * L
+        elif k == "out_lo":
+            xq[i] = xmin - (0.05 + 2.4 * u[i]) * L
+        elif k == "out_hi":
+            xq[i] = xmax + (0.05 + 2.4 * u[i]) * L
+    return xq
+
+
+def reference(method, sbc, eff_extrap, xs, ys, xq, const):
+    """reference values for the samples ys (sorted order) -> (ref, inside mask, positions the interpolant is evaluated at,
+    mask of the queries whose value depends on y)"""
+    xmin, xmax = xs[0], xs[-1]
+    inside = (xq >= xmin) & (xq <= xmax)
+    pos = xq.copy()
+    ref = np.empty((*ys.shape[:-1], len(xq)))
+    if eff_extrap in ("mirror", "periodic", "bound"):
+        if not inside.all():
+            pos[~inside] = map_outside(xq[~inside], xmin, xmax, eff_extrap)
+        ref[...] = ref_interp(method, sbc, xs, ys, pos)
+        return ref, inside, pos, np.ones_like(inside)
+    if inside.any():
+        ref[..., inside] = ref_interp(method, sbc, xs, ys, xq[inside])
+    if eff_extrap == "nan":
+        ref[..., ~inside] = np.nan
+    elif eff_extrap == "const":
+        ref[..., ~inside] = const
+    elif eff_extrap == "callable":
+        ref[..., ~inside] = 2.0 * xq[~inside] + 1.0
+    else:
+        raise ValueError(eff_extrap)
+    return ref, inside, pos, inside
+
+
+def run_history(case):
+    """ONE Interp1D object, a generated sequence of calls.  Every call is compared with the reference for the values y holds
+    AT THAT CALL and with a freshly constructed Interp1D; the caller's x, y, xq must be bitwise unchanged by every call."""
+    from xitorch.interpolate import Interp1D
+    torch.manual_seed(0)
+    g = gen.seeded(case["seed"])
+    method, bc, extrap = case["method"], case["bc"], case["extrap"]
+    xs = make_grid(case)
+    n = len(xs)
+    ratio = max(case["incs"]) / min(case["incs"])
+    xmin, xmax = xs[0], xs[-1]
+    L = xmax - xmin
+    eff_extrap = extrap
+    if extrap == "default":
+        eff_extrap = {"clamped": "mirror", "periodic": "periodic"}.get(bc, "nan") if method == "cspline" else "nan"
+    tied = (method == "cspline" and bc == "periodic") or eff_extrap == "periodic"     # y[0] == y[-1] required
+    sbc = bc if method == "cspline" else None
+    perm = torch.randperm(n, generator=g).numpy() if case["shuffle"] else np.arange(n)
+    inv = np.argsort(perm)              # y_t[..., inv[i]] holds the sample of the i-th smallest position
+    x_t = torch.tensor(xs[perm], dtype=DT)
+    const = float(case["const"])
+    kw = {"method": method}
+    if method == "cspline":
+        kw["bc_type"] = bc
+    if extrap != "default":
+        kw["extrap"] = {"nan": "nan", "const": const, "callable": (lambda z: 2.0 * z + 1.0), "bound": "bound",
+                        "mirror": "mirror", "periodic": "periodic"}[extrap]
+    kw_obj = dict(kw)
+    if case["assume_sorted"]:
+        kw_obj["assume_sorted"] = True
+
+    def sorted_values(batch):
+        v = torch.randn((*batch, n), generator=g, dtype=DT).numpy().copy()
+        if tied:
+            v[..., -1] = v[..., 0]
+        return v
+
+    def new_tensor(batch, layout):
+        v = torch.tensor(sorted_values(batch)[..., perm], dtype=DT)
+        if layout == "strided":         # a view into a larger tensor of the caller (every other element)
+            base = torch.zeros((*batch, 2 * n), dtype=DT)
+            base[..., ::2] = v
+            return base[..., ::2], base
+        return v, None
+
+    y0 = None
+    if case["yinit"]:
+        y0, _ = new_tensor(tuple(case["batch0"]), "contig")
+        obj = xt_call(Interp1D, x_t, y0, _where="construct", **kw_obj)
+    else:
+        obj = xt_call(Interp1D, x_t, _where="construct", **kw_obj)
+    x_before = x_t.clone()
+
+    labels = ["method=" + method, "bc=" + (bc if method == "cspline" else "-"),
+              "x=" + ("shuffled" if case["shuffle"] else "sorted+assume_sorted" if case["assume_sorted"] else "sorted"),
+              "yat=" + ("init" if case["yinit"] else "call"), "hist-extrap=" + str(eff_extrap)]
+    y = ybase = xq_t = None
+    ncalls = 0
+    between = False
+    seen = set()
+    for k, op in enumerate(case["ops"]):
+        where = "call %d (%s)" % (k, {kk: op[kk] for kk in ("y", "q", "grad", "nograd")})
+        # ---- the y of this call
+        ykind = op["y"]
+        if case["yinit"]:
+            # documented: a y given at call is ignored (with a warning) when y was given at construction
+            ycall = new_tensor(tuple(case["batch0"]), "contig")[0] if ykind in ("new", "copy_") else None
+            ycur = y0
+            seen.add("y=ignored" if ycall is not None else "y=None")
+        else:
+            if y is None or ykind == "new":
+                ykind = "new"
+                y, ybase = new_tensor(tuple(op["batch"]), op["layout"])
+            elif ykind != "same":
+                with torch.no_grad():
+                    if ykind == "copy_":
+                        y.copy_(torch.tensor(sorted_values(tuple(y.shape[:-1]))[..., perm], dtype=DT))
+                    elif ykind == "add_":
+                        y.add_(torch.tensor(sorted_values(())[perm], dtype=DT))
+                    elif ykind == "mul_":
+                        y.mul_(-1.5)
+                    elif ykind == "partial":
+                        vals = sorted_values(tuple(y.shape[:-1]))
+                        idx = sorted({int(i) % n for i in op["idx"]})
+                        if tied and (0 in idx or n - 1 in idx):
+                            idx = sorted(set(idx) | {0, n - 1})
+                        for i in idx:
+                            y[..., int(inv[i])] = torch.tensor(vals[..., i], dtype=DT)
+                    else:
+                        raise ValueError(ykind)
+            y.requires_grad_(bool(op["grad"]))
+            ycall = ycur = y
+            seen.add("y=" + ykind + ("+grad" if op["grad"] else ""))
+            if ybase is not None:
+                seen.add("y-layout=strided")
+        ys_now = ycur.detach().numpy()[..., inv].copy()           # values at this call, sorted order
+        batch = tuple(ycur.shape[:-1])
+        # ---- the queries of this call
+        qkind = op["q"]
+        if xq_t is None or qkind == "new":
+            nq = op["nq"]
+            xq = draw_queries(op["qkinds"], nq, torch.rand((nq,), generator=g, dtype=DT).numpy(), xs)
+            xq_t = torch.tensor(xq, dtype=DT)
+        elif qkind == "inplace":
+            nq = xq_t.shape[-1]
+            xq = draw_queries(op["qkinds"], nq, torch.rand((nq,), generator=g, dtype=DT).numpy(), xs)
+            with torch.no_grad():
+                xq_t.copy_(torch.tensor(xq, dtype=DT))
+        nq = xq_t.shape[-1]
+        xq = xq_t.detach().numpy().copy()
+        xq_t.requires_grad_(bool(op["qgrad"]))
+        seen.add("formula=" + ("many" if nq > n else "few"))
+        seen.add("q=" + qkind)
+
+        ref, inside, pos, act = reference(method, sbc, eff_extrap, xs, ys_now, xq, const)
+        has_out = not inside.all()
+        ymax = float(np.abs(ys_now).max()) + 1.0
+        tol = 1e-10 * ratio ** 2 * ymax * (1 + (3 * np.abs(xq).max() / L if has_out else 0))
+
+        snap = [("xq", xq_t, xq_t.detach().clone())]
+        if ycall is not None:
+            snap.append(("y", ycall, ycall.detach().clone()))
+        if ybase is not None and not case["yinit"]:
+            snap.append(("the tensor y is a view of", ybase, ybase.detach().clone()))
+        if y0 is not None:
+            snap.append(("y given at construction", y0, y0.detach().clone()))
+        with torch.set_grad_enabled(not op["nograd"]):
+            out = xt_call(obj, xq_t, ycall, _where="history-call") if ycall is not None else xt_call(obj, xq_t, _where="history-call")
+        ncalls += 1
+        for nm, t, before in snap + [("x", x_t, x_before)]:
+            if not same_bits(t, before):
+                return violation("input_modified", "%s: the caller's %s tensor was modified by the call" % (where, nm), labels)
+        if tuple(out.shape) != (*batch, nq):
+            return violation("history_shape", "%s: result shape %s, expected %s" % (where, tuple(out.shape), (*batch, nq)), labels)
+        outn = out.detach().numpy()
+        nanmask = np.isnan(ref)
+        if (np.isnan(outn) != nanmask).any():
+            return violation("history_nan_pattern", "%s: NaN pattern differs from the reference" % where, labels)
+        err = np.abs(np.where(nanmask, 0.0, outn - ref))
+        if err.max() > tol:
+            i = np.unravel_index(np.argmax(err), err.shape)
+            return violation("history_value", "%s on a re-used object: at xq=%r got %r, reference for the values y holds at this call %r "
+                             "(err %.2e, tol %.2e)" % (where, xq[i[-1]], outn[i], ref[i], err.max(), tol), labels)
+        # a freshly constructed object with the same data (xitorch-vs-xitorch, in addition to the reference)
+        fresh = xt_call(lambda: Interp1D(x_t.clone(), ycur.detach().clone(), **kw)(xq_t.detach().clone()), _where="fresh")
+        fn = fresh.detach().numpy()
+        if (np.isnan(fn) != nanmask).any() or np.abs(np.where(nanmask, 0.0, fn - outn)).max() > 1e-13 * ymax * ratio ** 2:
+            return violation("history_vs_fresh", "%s: the re-used object and a freshly constructed Interp1D(x, y) differ by %.2e" % (
+                where, np.abs(np.where(nanmask, 0.0, fn - outn)).max()), labels)
+        between = between or bool((~np.isin(pos[act], xs)).any())
+
+        # ---- derivatives, when this call records a graph
+        want_y = bool(op["grad"]) and not op["nograd"] and not case["yinit"]
+        want_q = bool(op["qgrad"]) and not op["nograd"] and not has_out
+        if (want_y or want_q) and act.any():
+            if not out.requires_grad:
+                return violation("history_no_graph", "%s: the result does not require grad although %s does" % (
+                    where, "y" if want_y else "xq"), labels)
+            nact = int(act.sum())
+            W = torch.randn((*batch, nact), generator=g, dtype=DT)
+            Wn = W.numpy()
+            wrt = ([ycall] if want_y else []) + ([xq_t] if want_q else [])
+            grads = xt_call(torch.autograd.grad, (out[..., torch.tensor(act)] * W).sum(), wrt, allow_unused=True, _where="history-backward")
+            grads = list(grads)
+            if want_y:
+                gy = grads.pop(0)
+                gyn = np.zeros((*batch, n)) if gy is None else gy.numpy()[..., inv]          # sorted order
+                # row j of Lmat = response of the interpolant to the j-th unit vector; with y[0]==y[-1] required, only
+                # directions inside that subspace are defined: interior unit vectors and e_0 + e_{n-1}
+                E = np.eye(n)
+                if tied:
+                    E[0, -1] = 1.0
+                    E = E[:-1]
+                    gyn = np.concatenate([gyn[..., :1] + gyn[..., -1:], gyn[..., 1:-1]], axis=-1)
+                Lmat = ref_interp(method, sbc, xs, E, pos[act])
+                gy_ref = np.einsum("...q,jq->...j", Wn, Lmat)
+                if np.abs(gyn - gy_ref).max() > 1e-9 * ratio ** 2 * (1 + np.abs(gy_ref).max()):
+                    return violation("history_grad_y", "%s: d/dy differs from the interpolation matrix of the reference (err %.2e)" % (
+                        where, np.abs(gyn - gy_ref).max()), labels)
+                seen.add("checked=grad_y")
+            if want_q:
+                gx = grads.pop(0)
+                d_ref = (ref_interp(method, sbc, xs, ys_now, xq, nu=1) * Wn).reshape(-1, nq).sum(0)
+                gxn = np.zeros_like(d_ref) if gx is None else gx.numpy()
+                mask = ~np.isin(xq, xs) if method == "linear" else np.ones(nq, dtype=bool)
+                if mask.any() and np.abs((gxn - d_ref)[mask]).max() > 1e-8 * ratio ** 3 * (1 + np.abs(d_ref).max()) / min(case["incs"]) / case["xscale"]:
+                    return violation("history_grad_xq", "%s: d/dxq differs from the interpolant's derivative (err %.2e)" % (
+                        where, np.abs((gxn - d_ref)[mask]).max()), labels)
+                seen.add("checked=grad_xq")
+        del out
+    return ok(labels + sorted(seen) + ["calls=%d" % ncalls], ncalls >= 2 and between)
+
+
+@st.composite
+def history_st(draw, tier="quick"):
+    method = draw(st.sampled_from(["linear", "cspline", "cspline", "cspline"]))
+    bc = draw(st.sampled_from(["not-a-knot", "natural", "clamped", "periodic"])) if method == "cspline" else "natural"
+    nmin = 4 if (method == "cspline" and bc == "not-a-knot") else 3
+    n = draw(st.integers(nmin, 8 if tier == "quick" else 16))
+    incs = [draw(st.sampled_from([1.0, 1.0, 1.0, 0.5, 2.0, 0.1, 3.0, 10.0])) for _ in range(n - 1)]
+    extrap = draw(st.sampled_from(["default", "default", "default", "nan", "const", "callable", "bound", "mirror", "periodic"]))
+    shuffle = draw(st.booleans())
+    qk = ["in", "in", "in", "knot", "lo", "hi", "out_lo", "out_hi"]
+    batches = [[], [], [2], [1], [2, 3]]
+    nops = draw(st.integers(2, 4 if tier == "quick" else 7))
+    ops = []
+    for _ in range(nops):
+        ops.append({"y": draw(st.sampled_from(["new", "same", "copy_", "copy_", "add_", "mul_", "partial"])),
+                    "batch": draw(st.sampled_from(batches)), "layout": draw(st.sampled_from(["contig", "contig", "strided"])),
+                    "grad": draw(st.sampled_from([False, False, True])), "nograd": draw(st.sampled_from([False, False, False, True])),
+                    "idx": draw(st.lists(st.integers(0, n - 1), min_size=1, max_size=3)),
+                    "q": draw(st.sampled_from(["new", "new", "same", "inplace"])), "qgrad": draw(st.sampled_from([False, False, False, True])),
+                    "nq": draw(st.one_of(st.integers(1, n), st.integers(n + 1, 3 * n))),
+                    "qkinds": draw(st.lists(st.sampled_from(qk), min_size=1, max_size=4))})
+    return {"method": method, "bc": bc, "extrap": extrap, "incs": incs, "xscale": draw(st.sampled_from([1.0, 0.01, 30.0])),
+            "x0": draw(st.sampled_from([0.0, -5.0, 2.5])), "shuffle": shuffle,
+            "assume_sorted": (not shuffle) and draw(st.booleans()), "yinit": draw(st.sampled_from([False, False, False, True])),
+            "batch0": draw(st.sampled_from(batches)), "const": draw(st.sampled_from([1.75, 0.0, -2.0])), "ops": ops,
+            "seed": draw(st.integers(0, 2 ** 31 - 1))}
+
+
 def tasks(tier):
-    return [Task("interp", strategy=case_st(tier), run=run_case, examples={"quick": 1600, "thorough": 30000})]
+    return [Task("interp", strategy=case_st(tier), run=run_case, examples={"quick": 1600, "thorough": 30000}),
+            Task("history", strategy=history_st(tier), run=run_history, examples={"quick": 500, "thorough": 8000})]
